@@ -241,6 +241,19 @@ func c15case(fail func(string, ...any), tr *transcript, k *gen.Kind, vals []ref.
 			}
 		}
 	}
+	// Bool: exactly one byte that is neither 0 nor 1, at any position of an otherwise valid
+	// column (whatever the row count, also multiples of the word size), is rejected.
+	if k.Scalar == "Bool" && len(want.B) > 0 {
+		pos := int(uint(len(arbitrary)*31+len(junk)) % uint(len(want.B)))
+		bad := append([]byte(nil), want.B...)
+		bad[pos] = []byte{2, 3, 0x80, 0xff}[(len(junk)+pos)%4]
+		target := k.New()
+		err := libDecodeColumn(target.Column(), bad, len(vals))
+		tr.line("%s|dec-one-bad-bool@%d|%s", id, pos, errClass(err))
+		if err == nil || isPanic(err) {
+			fail("Bool: DecodeColumn of %d rows accepts the byte %#x at row %d (returned %v)", len(vals), bad[pos], pos, err)
+		}
+	}
 	// Short input.
 	if len(want.B) > 0 {
 		cut := len(want.B) - 1 - (len(arbitrary) % min(len(want.B), 5))
@@ -294,8 +307,18 @@ func TestC15Differential(t *testing.T) {
 	st.Exhaustive("every element value of the 8- and 16-bit dual codecs")
 	rapid.Check(t, func(rt *rapid.T) {
 		k := kinds[rapid.IntRange(0, len(kinds)-1).Draw(rt, "kind")]
-		rows := rapid.OneOf(rapid.IntRange(0, 5), rapid.IntRange(0, 40)).Draw(rt, "rows")
-		vals := gen.DrawRows(rt, k, rows)
+		rows := rapid.OneOf(rapid.IntRange(0, 5), rapid.IntRange(0, 40), rapid.IntRange(0, 40), rapid.IntRange(0, 40), rapid.SampledFrom([]int{8, 16, 24, 32, 40, 64, 128}),
+			// rarely: row counts around the chunk sizes a codec may work in
+			rapid.OneOf(rapid.IntRange(0, 40), rapid.IntRange(0, 40), rapid.IntRange(0, 40), rapid.SampledFrom([]int{1023, 1024, 1025, 4095, 4096, 4097, 5000, 8191, 8192, 8193}))).Draw(rt, "rows")
+		var vals []ref.Val
+		if rows > 200 {
+			seed := rapid.IntRange(1, 1<<30).Draw(rt, "values-seed")
+			for i := 0; i < rows; i++ {
+				vals = append(vals, k.Value.Example(seed+i))
+			}
+		} else {
+			vals = gen.DrawRows(rt, k, rows)
+		}
 		junk := rapid.SliceOfN(rapid.Byte(), 1, 23).Draw(rt, "junk")
 		arb := rapid.SliceOfN(rapid.Byte(), 0, 96).Draw(rt, "arbitrary")
 		c15case(func(f string, a ...any) { rt.Fatalf(f, a...) }, tr, k, vals, junk, arb, "random")
